@@ -866,6 +866,74 @@ def spec_sink_tie(rng):
     return dict(nodes=nodes, conns=conns, supervisor="n0", seed=rng.randrange(1 << 30))
 
 
+def spec_raw_sinks(rng):
+    """A computation graph written down directly (no recording): supervisor n0 in a loop with n1, and two sinks that no supervisor step
+    depends on — n2 whose steps take longer than its period (one of them is still running when the last supervisor step of the horizon
+    starts) and n3 which is slow for its first steps and fast afterwards (many short steps that start while n2's long step runs and end
+    before the last supervisor step starts). With pruning off all of n3's finished steps are owed a slot. spec["raw"] holds the
+    per-node piecewise durations and the horizon."""
+    import math
+
+    r = rng.choice([4, 5, 8])
+    T = 1.0 / r
+    m, P = rng.choice([(3, 10), (3, 11), (4, 13), (4, 12), (5, 14)])
+    delta = rng.choice([0.2, 0.4, 0.6])
+    long_d = (P - 1 + delta) * T / (m + 1)          # n2's step m starts before and ends after the start of supervisor step P-1 ...
+    horizon = (P - 1) * T + 0.9 * T                 # ... and still ends within the horizon
+    n_slow = min(P - 2, int(math.ceil(m * long_d / T)) + rng.choice([0, 1]))  # n3 turns fast while that step of n2 is running
+    nodes = [dict(name="n0", rate=r, comp=dict(kind="det", loc=T / 16, scale=0.0), advance=False, scheduling="FREQUENCY"),
+             dict(name="n1", rate=2 * r, comp=dict(kind="det", loc=3 * T / 16, scale=0.0), advance=False, scheduling="FREQUENCY"),
+             dict(name="n2", rate=r / 2, comp=dict(kind="det", loc=long_d, scale=0.0), advance=False, scheduling="FREQUENCY"),
+             dict(name="n3", rate=4 * r, comp=dict(kind="det", loc=T / 16, scale=0.0), advance=False, scheduling="FREQUENCY")]
+    conns = [dict(src="n1", dst="n0", blocking=False, skip=False, jitter="LATEST", window=rng.choice([1, 2]), comm=dict(kind="det", loc=T / 16, scale=0.0)),
+             dict(src="n0", dst="n1", blocking=False, skip=True, jitter="LATEST", window=1, comm=dict(kind="det", loc=T / 32, scale=0.0)),
+             dict(src="n0", dst="n2", blocking=False, skip=False, jitter="LATEST", window=1, comm=dict(kind="det", loc=0.0, scale=0.0)),
+             dict(src="n0", dst="n3", blocking=False, skip=False, jitter="LATEST", window=rng.choice([1, 2]), comm=dict(kind="det", loc=0.0, scale=0.0))]
+    raw = dict(ts_max=horizon, durations={"n0": [[0, T / 16]], "n1": [[0, 3 * T / 16]], "n2": [[0, long_d]], "n3": [[0, T], [n_slow, T / 16]]})
+    return dict(nodes=nodes, conns=conns, supervisor="n0", seed=rng.randrange(1 << 30), raw=raw)
+
+
+def raw_graph_of(spec):
+    """the computation graph of spec (with spec["raw"]) as a stacked rex.base.Graph of one episode: step k+1 of a node starts at
+    max(end of step k, start of step k + period); message k of a connection arrives at max(end + delay, previous arrival) and is
+    consumed by the first step of the receiver that starts at (skip: after) the arrival"""
+    import numpy as onp
+    from rex.base import Edge, Graph, Vertex
+
+    raw = spec["raw"]
+    verts = {}
+    for nd in spec["nodes"]:
+        pieces = raw["durations"][nd["name"]]
+        seqs, t0s, t1s = [], [], []
+        t, k = 0.0, 0
+        while True:
+            d = [x[1] for x in pieces if x[0] <= k][-1]
+            te = t + d
+            if te > raw["ts_max"]:
+                break
+            seqs.append(k)
+            t0s.append(t)
+            t1s.append(te)
+            t = max(te, t + 1.0 / nd["rate"])
+            k += 1
+        verts[nd["name"]] = (onp.array(seqs, dtype=onp.int32), onp.array(t0s, dtype=onp.float32), onp.array(t1s, dtype=onp.float32))
+    edges = {}
+    for c in spec["conns"]:
+        so, si, tr = [], [], []
+        last = -onp.inf
+        ts_in = verts[c["dst"]][1]
+        for k in range(len(verts[c["src"]][0])):
+            t_recv = max(float(verts[c["src"]][2][k]) + c["comm"]["loc"], last)
+            last = t_recv
+            cand = onp.nonzero(ts_in > t_recv if c["skip"] else ts_in >= t_recv)[0]
+            so.append(k)
+            si.append(int(cand[0]) if len(cand) else -1)
+            tr.append(t_recv)
+        edges[(c["src"], c["dst"])] = Edge(seq_out=onp.array(so, dtype=onp.int32), seq_in=onp.array(si, dtype=onp.int32), ts_recv=onp.array(tr, dtype=onp.float32))
+    g = Graph(vertices={n: Vertex(seq=v[0], ts_start=v[1], ts_end=v[2]) for n, v in verts.items()}, edges=edges)
+    return Graph.stack([g])
+
+
 def expected_windows(spec, graphs_raw, e):
     """Independent window oracle from the raw recorded graph: for vertex (dst, k) and input src the last W sequence numbers of
     [-1] * W ++ [seq_out of the edges src->dst with 0 <= seq_in <= k, in edge order], W = window + ceil(rate_src * (max - min)) for a
